@@ -1,0 +1,8 @@
+//go:build !verif
+
+// Package verifhook provides scheduling yield points for the verification harness.
+// Without the build tag `verif` every function is an empty, inlinable no-op.
+package verifhook
+
+// Yield marks a scheduling point.
+func Yield(site string, obj any) {}
